@@ -72,7 +72,18 @@ def cases(draw, tier="quick"):
     if draw(st.integers(0, 5 if tier == "quick" else 3)) == 0 and dt in ("<f8", "<i8", "<f4", "|b1"):
         engines.append("numba")
     case["engines"] = engines
+    # an explicit dtype= (values must be unaffected apart from the cast; numbagg refuses dtype=)
+    if draw(st.integers(0, 4)) == 0 and func not in ("any", "all", "count") and "arg" not in func:
+        if "f" in dt or func_is_float(func):
+            case["dtype"] = draw(st.sampled_from(["<f8", "<f4"]))
+        elif dt != "|b1":
+            case["dtype"] = draw(st.sampled_from(["<i8", "<f8"]))
     return case
+
+
+def func_is_float(func):
+    f = func[3:] if func.startswith("nan") else func
+    return f in ("mean", "var", "std")
 
 
 def strategy(tier):
@@ -102,6 +113,10 @@ def execute(case) -> Outcome:
     refs = reference(arr, by, case)
     keys, _, nmem, _ = refs[0]
     rtol, atol = tol_for(func, arr.dtype)
+    if case.get("dtype") == "<f4" and gen.func_family(func) == "var":
+        rtol, atol = 1e-5, 1e-5
+    elif case.get("dtype") == "<f4" and func in ("mean", "nanmean"):
+        rtol = 1e-6
 
     # non-triviality
     labs = [x for x in case["by"]["v"] if x != "nan"]
@@ -119,7 +134,7 @@ def execute(case) -> Outcome:
     out.nontrivial = (
         len(keys) >= 2 and max(nmem, default=0) >= 2 and (nan_in_multi or has_missing or unsorted or neg or unrequested)
     )
-    out.label(f"func={func}", f"dtype={arr.dtype.str}", f"labels={case['by']['dt']}")
+    out.label(f"func={func}", f"dtype={arr.dtype.str}", f"labels={case['by']['dt']}", f"dtype_kw={case.get('dtype')}")
 
     for engine in case["engines"]:
         r = eager_reduce(arr, [by], kw, engine=engine)
